@@ -173,7 +173,10 @@ def _seq(rec, case, rng):
         ops = ['neg', 'add', 'sub', 'getitem', 'getitem', 'nway', 'ravel']
         if tk in ('CanonicalTensor', 'TuckerTensor'): ops += ['copy', 'squeeze', 'norm', 'addnd']
         if tk == 'TuckerTensor': ops += ['orthogonalize', 'truncate_full', 'compress0', 'to_canonical', 'pad', 'join']
-        if tk == 'CanonicalTensor': ops += ['to_tucker', 'pad']
+        if tk == 'CanonicalTensor':
+            ops += ['pad']
+            # the Tucker core of a canonical tensor of rank R has R^d entries: only while that fits in memory
+            if getattr(T, 'R', 1) ** max(1, T.ndim) <= 200000: ops += ['to_tucker']
         if tk == 'ndarray': ops = ['to_tucker', 'neg']
         op = str(rng.choice(ops)); hist.append(op)
         sig = {'kind': 'seq', 'type': tk, 'op': op}
